@@ -20,8 +20,8 @@ run_demo() {
     [ -e "$f" ] || continue
     stem=seed_demo_$(basename "$f" .rs)
     cp "$f" lib/tests/$stem.rs
-    cargo test -p adf_bdd --offline --test $stem 2>&1 | grep -E "^test result|error(\[|:)" | head -3
-    cargo test -p adf_bdd --offline --test $stem >/dev/null 2>&1 || rc=1
+    cargo test -p adf_bdd --offline ${DEMO_ARGS:-} --test $stem 2>&1 | grep -E "^test result|error(\[|:)" | head -3
+    cargo test -p adf_bdd --offline ${DEMO_ARGS:-} --test $stem >/dev/null 2>&1 || rc=1
     rm -f lib/tests/$stem.rs
   done
   return $rc
